@@ -606,7 +606,11 @@ class TorrentFileHybrid(MetaFile, ProgMixin):
         self.pieces = []
         self.files = []
         size, file_list = utils.filelist_total(self.path)
-        self.kws = {"progress": self.progress, "progress_bar": None}
+        self.kws = {
+            "progress": self.progress,
+            "progress_bar": None,
+            "pad": not os.path.isfile(self.path),
+        }
         self.total = len(file_list)
 
         if self.progress == 0:
@@ -713,6 +717,7 @@ class TorrentAssembler(MetaFile, ProgMixin):
             "progress": self.progress,
             "progress_bar": None,
             "hybrid": self.hybrid,
+            "pad": not os.path.isfile(self.path),
         }
         self.total = len(file_list)
 
